@@ -12,6 +12,7 @@ import (
 	"math/rand"
 	"net"
 	"net/http"
+	"reflect"
 	"runtime"
 	"strings"
 	"sync/atomic"
@@ -90,6 +91,15 @@ func runAcceptRow(rep *Report, row *c11Row) {
 		b.WriteString("Sec-WebSocket-Key: " + base64.StdEncoding.EncodeToString([]byte("12345678")) + "\r\n")
 	case "long":
 		b.WriteString("Sec-WebSocket-Key: " + base64.StdEncoding.EncodeToString([]byte("123456789012345678901234")) + "\r\n")
+	case "dec14", "dec15", "dec17", "dec18":
+		n := map[string]int{"dec14": 14, "dec15": 15, "dec17": 17, "dec18": 18}[row.Req.Key]
+		b.WriteString("Sec-WebSocket-Key: " + base64.StdEncoding.EncodeToString([]byte("ABCDEFGHIJKLMNOPQRSTUVWXYZ")[:n]) + "\r\n")
+	case "ok16nopad":
+		// 16 bytes but without the '=' padding: not a valid standard base64 encoding of 16 bytes
+		b.WriteString("Sec-WebSocket-Key: " + strings.TrimRight(goodKey, "=") + "\r\n")
+	case "ok16urlsafe":
+		// URL-safe alphabet: '-' and '_' are not part of the standard alphabet
+		b.WriteString("Sec-WebSocket-Key: " + base64.URLEncoding.EncodeToString([]byte{0xfb, 0xff, 0xfe, 0xfb, 0xff, 0xfe, 0xfb, 0xff, 0xfe, 0xfb, 0xff, 0xfe, 0xfb, 0xff, 0xfe, 0xfb}) + "\r\n")
 	case "nonb64":
 		b.WriteString("Sec-WebSocket-Key: !!!not*base64!!!\r\n")
 	case "missing":
@@ -784,6 +794,32 @@ func init() {
 						n++
 					}
 				}
+			}
+		}
+		// the caller's header map is the caller's: reused across dials it must stay as given and must not carry offers over
+		shared := http.Header{}
+		shared.Set("X-Custom", "kept")
+		for i, dc := range []dialReqCase{{Subs: []string{"chat", "v2"}, Mode: "nct"}, {Mode: "off"}, {Subs: []string{"a"}, Mode: "ct"}, {Mode: "off", Host: "h.example"}} {
+			before := shared.Clone()
+			a, peer := ws.Pipe()
+			c, req, err := ws.ClientConn(a, &websocket.DialOptions{HTTPHeader: shared, Host: dc.Host, Subprotocols: dc.Subs, CompressionMode: modeOf(dc.Mode)}, "")
+			if c != nil {
+				c.CloseNow()
+			}
+			peer.Close()
+			n++
+			id := map[string]interface{}{"dial": i, "opts": dc}
+			if err != nil || req == nil {
+				rep.miss("dial-request-failed", id, fmt.Sprint(err))
+				continue
+			}
+			if !reflect.DeepEqual(map[string][]string(shared), map[string][]string(before)) {
+				rep.miss("dial-modified-callers-header-map", id, fmt.Sprint(shared))
+			}
+			gotSub := strings.ReplaceAll(strings.Join(req.Header.Values("Sec-WebSocket-Protocol"), ","), " ", "")
+			on, _, _, _ := parseExt(req.Header.Get("Sec-WebSocket-Extensions"))
+			if gotSub != strings.Join(dc.Subs, ",") || on != (dc.Mode != "off") {
+				rep.miss("dial-request-carries-offers-of-an-earlier-dial", id, fmt.Sprintf("subprotocols %q extensions %q", gotSub, req.Header.Get("Sec-WebSocket-Extensions")))
 			}
 		}
 		rep.Evaluations += int64(n)
